@@ -271,6 +271,40 @@ _HIER_VALUES = {"value": [("7", 7), ("'x'", "x")], "kid": [("VLeaf", "leaf"), ("
 _HIER_COUNT = [0]
 
 
+class _Tok(str):
+    """A str subclass (a token class of a lexer)."""
+
+
+class _Level(__import__("enum").IntEnum):
+    ONE = 1
+    TWO = 2
+    THREE = 3
+
+
+def literal_membership_harness(e):
+    """Literals by MEMBERSHIP: a value that is a member of the literal's arguments conforms also when
+    it is an instance of a subclass of the argument's type (a str subclass, an IntEnum member)."""
+    from typing import Literal
+
+    from pyoak.typing import is_instance
+
+    reset_all()
+    cases = [
+        ("Literal['r','w']", Literal["r", "w"], _Tok("r"), True), ("Literal['r','w']", Literal["r", "w"], _Tok("x"), False),
+        ("Literal[1,2]", Literal[1, 2], _Level.ONE, True), ("Literal[1,2]", Literal[1, 2], _Level.THREE, False),
+        ("Optional[Literal['r']]", Optional[Literal["r"]], _Tok("r"), True), ("Optional[Literal['r']]", Optional[Literal["r"]], None, True),
+        ("tuple[Literal['r','w'], ...]", Tuple[Literal["r", "w"], ...], (_Tok("w"), "r"), True), ("tuple[Literal['r','w'], ...]", Tuple[Literal["r", "w"], ...], (_Tok("w"), _Tok("q")), False),
+        ("Literal['r','w']", Literal["r", "w"], "r", True), ("Literal[1,2]", Literal[1, 2], 2, True),
+    ]
+    k = e.choice(len(cases), "case")
+    text, ann, value, want = cases[k]
+    got = is_instance(value, ann)
+    if got is not want:
+        e.fail("is_instance-disagrees-with-conformance:literal-membership", scenario={"annotation": text, "value": repr(value), "type": type(value).__name__, "got": got, "expected": want})
+    e.distinct(k)
+    return {"annotation": text, "value": repr(value)}
+
+
 def hierarchy_harness(e):
     """Class hierarchies and the order in which their classes are first constructed: every class
     is checked against its own fields (added, re-declared, init or not), whatever came before."""
@@ -372,6 +406,7 @@ def spec(tier: str, seed: int) -> Spec:
     fams = [Family("pool-pairs", pool_harness, variables="selectors: annotation x pool value")]
     for fname in _field_ann():
         fams.append(Family(f"construct-{fname}", make_construct_harness(fname), variables="selectors: one or two deviating fields and their values; lazy: config.RUNTIME_TYPE_CHECK"))
+    fams.append(Family("literal-membership", literal_membership_harness, variables="selector: annotation / value case (subclass instances of the literal's type)"))
     fams.append(Family("class-hierarchy-history", hierarchy_harness, variables="selectors: which classes of a hierarchy were constructed earlier (checked or not), class, one or two fields and their values"))
     return Spec(
         families=fams,
